@@ -399,10 +399,20 @@ def run(ctx: Ctx) -> None:
                     ids = {id(o) for o in wide_out}
                     ctx.check(all(id(o) in ids for o in out), "C10/widening_a_bound_removes_an_object", dict(fn="filter_object_results", narrow=len(out), wide=len(wide_out)), "filter_object_results")
         # 2D lists (no position: only label / confidence / uuid criteria apply)
-        for idx in ctx.indices("direct2d", 100 if ctx.quick else 5000):
+        for idx in ctx.indices("direct2d", 300 if ctx.quick else 5000):
             r = ctx.rng("direct2d", idx)
-            labels = [AutowareLabel(t) for t in r.sample(["car", "bus", "pedestrian", "bicycle"], r.randint(1, 3))]
-            objs = [O.obj2d((r.randint(0, 500), r.randint(0, 500), r.randint(1, 100), r.randint(1, 100)), r.choice(["car", "bus", "pedestrian", "bicycle", "unknown", "false_positive"]), score=round(r.random(), 2), uuid=f"u{k}") for k in range(r.randint(0, 10))]
+            if r.random() < 0.5:
+                family, enum, pool = "autoware", AutowareLabel, ["car", "bus", "pedestrian", "bicycle"]
+            else:
+                from perception_eval.common.label import TrafficLightLabel
+
+                family, enum, pool = "traffic_light", TrafficLightLabel, ["green", "red", "yellow", "traffic_light"]
+            names = r.sample(pool, r.randint(1, 3)) + (["unknown"] if r.random() < 0.5 else [])
+            labels = [enum(t) for t in names]
+            objs = [O.obj2d((r.randint(0, 500), r.randint(0, 500), r.randint(1, 100), r.randint(1, 100)) if r.random() < 0.7 else None, r.choice(pool + ["unknown", "unknown", "false_positive"]), family=family, score=round(r.random(), 2), uuid=f"u{k}") for k in range(r.randint(0, 10))]
+            for o in objs:
+                if r.random() < 0.3:
+                    o.semantic_label.attributes = r.choice([["occluded"], ["x"]])
             ctx.begin_case("direct2d", idx, n=len(objs))
             with ctx.case_guard("direct2d"):
                 kw = dict(target_labels=labels)
@@ -411,6 +421,8 @@ def run(ctx: Ctx) -> None:
                 is_gt = r.random() < 0.5
                 if is_gt and r.random() < 0.5 and objs:
                     kw["target_uuids"] = [o.uuid for o in r.sample(objs, r.randint(1, len(objs)))]
+                if r.random() < 0.4:
+                    kw["ignore_attributes"] = r.choice([["occluded"], ["gre"], []])
                 mgr_mod.filter_objects(objs, is_gt, **kw)
         run_manager_scenarios(ctx, "scenario", 30 if ctx.quick else 2000)
         ctx.notes["taps"] = taps.installed
